@@ -73,8 +73,32 @@ fn scenario_panics() {
         None => println!("OBL C12.SURVIVES-PANIC PASS after each of 9 rejected additions: later add_signal Ok, re-add no-op, watched signal still delivered"),
         Some(m) => println!("OBL C12.SURVIVES-PANIC FAIL {}", m),
     }
+    // ---- 1b. after the instance and its handles are gone, its registrations are gone and its pipe is
+    // closed - also when an addition had been rejected by panic before (EOF probe on a dup of the read end)
+    {
+        use signal_hook::iterator::backend::SignalDelivery;
+        use signal_hook::iterator::exfiltrator::SignalOnly;
+        use std::io::Read;
+        use std::os::unix::net::UnixStream;
+        let (read, write) = UnixStream::pair().unwrap();
+        let mut probe = read.try_clone().unwrap();
+        probe.set_nonblocking(true).unwrap();
+        let sd = SignalDelivery::with_pipe(read, write, SignalOnly, &[SIGUSR1]).unwrap();
+        let h = sd.handle();
+        let _ = catch_unwind(AssertUnwindSafe(|| h.add_signal(SIGKILL)));
+        let _ = h.add_signal(SIGUSR2);
+        drop(h);
+        let _ = catch_unwind(AssertUnwindSafe(move || drop(sd)));
+        let mut b = [0u8; 8];
+        match probe.read(&mut b) {
+            Ok(0) => {}
+            other => {
+                drop_fail.get_or_insert(format!("after a rejected add_signal(SIGKILL) and dropping the instance and all handles, the self-pipe is still open ({:?}): registrations were left behind", other));
+            }
+        }
+    }
     match drop_fail {
-        None => println!("OBL C12.DROP-NO-PANIC PASS drop after a rejected addition does not panic"),
+        None => println!("OBL C12.DROP-NO-PANIC PASS drop after a rejected addition does not panic, removes every registration and closes the pipe"),
         Some(m) => println!("OBL C12.DROP-NO-PANIC FAIL {}", m),
     }
 }
